@@ -43,7 +43,7 @@ theorem skel_get_cached : skel_anycache_Cache_for_T_get_cached_entry_inner =
 theorem skel_get_or_insert : skel_anycache_CacheExt__get_or_insert =
     [.call .s__get_cached_entry, .branch [[], [.call .s_add_any]], .call .s_downcast_ref_ok] := rfl
 theorem skel_add_any : skel_anycache_CacheExt_add_any =
-    [.closure [.call .s__has_reloader], .call .s_insert] := rfl
+    [.call .s_insert] := rfl
 
 /-! ## Sequences of atomic map steps without removal (one shared-borrow phase) -/
 
